@@ -179,29 +179,10 @@ public:
     const auto B = detail::cos_4(th2);
     const auto C = -detail::sin_5(th2);
 
-    const auto [dA_over_th, dB_over_th, dC_over_th] = [&]() -> std::array<Scalar, 3> {
-      if (th2 < Scalar(eps2)) {
-        return {
-          -Scalar(1) / 60,
-          -Scalar(1) / 360,
-          Scalar(1) / 2520,
-        };
-      } else {
-        const Scalar th  = sqrt(th2);
-        const Scalar th3 = th2 * th;
-        const Scalar th4 = th2 * th2;
-        const Scalar th5 = th3 * th2;
-        const Scalar th6 = th3 * th3;
-        const Scalar th7 = th4 * th3;
-        const Scalar sTh = sin(th);
-        const Scalar cTh = cos(th);
-        return {
-          -cTh / th4 - 2 / th4 + 3 * sTh / th5,
-          -1 / th4 - sTh / th5 - 4 * cTh / th6 + 4 / th6,
-          1 / (3 * th4) - cTh / th6 - 4 / th6 + 5 * sTh / th7,
-        };
-      }
-    }();
+    // (dA/dth) / th etc. in terms of the Taylor tails (no cancellation)
+    const Scalar dA_over_th = Scalar(3) * detail::sin_5(th2) - detail::cos_4(th2);
+    const Scalar dB_over_th = -detail::sin_5(th2) - Scalar(4) * detail::cos_6(th2);
+    const Scalar dC_over_th = Scalar(5) * detail::sin_7(th2) - detail::cos_6(th2);
 
     Eigen::Matrix<Scalar, 3, 3> V, W;
     SO3Impl<Scalar>::hat(a.template head<3>(), V);
